@@ -14,13 +14,14 @@ From PV Require Import Model.Rel Proofs.RelFacts Model.SplitBase Gen.GenSplit Pr
 Import ListNotations.
 
 (* ---- (c) table obligation on what anchor.rs says NOW ---- *)
-(* Pairs the unchanged tree gets wrong (known findings; see known_findings.json):
+(* Pairs the tree still gets wrong (known findings; see known_findings.d/relational.json):
    F19  Take may join a SELECT in front of Distinct / DistinctOn  (SELECT DISTINCT .. LIMIT n: DISTINCT is evaluated first)
-   F31  Distinct and DistinctOn may share a SELECT (the DISTINCT ON is dropped)
-   and three latent pairs of the same family (a set operation in front of DistinctOn). *)
+   and three latent pairs of the same family (a set operation in front of DistinctOn; today the operand of a set
+   operation always arrives wrapped, so no program reaches them).
+   Repaired since the last adaptation: Distinct and DistinctOn no longer share a SELECT (fix 3561315: the pairs
+   (KDistinct, NDistinctOn) and (KDistinctOn, NDistinct) left this list; `c01_split_distinct_pairs_closed` pins that). *)
 Definition known_bad : list (kind * nm) :=
   [ (KTake, NDistinct); (KTake, NDistinctOn);
-    (KDistinct, NDistinctOn); (KDistinctOn, NDistinct);
     (KUnion, NDistinctOn); (KExcept, NDistinctOn); (KIntersect, NDistinctOn) ].
 
 (* full statement (FALSE on the unchanged tree):  bad_pairs split_required = []  *)
@@ -29,11 +30,21 @@ Theorem c01_split_table_refines_clause_order_partial :
 Proof. vm_compute. reflexivity. Qed.
 Print Assumptions c01_split_table_refines_clause_order_partial.
 
+(* every pair of the list really is let through against the clause order (so the list is exact: a repair of any of
+   them breaks this obligation and forces the list to shrink), with the F19 witness spelled out *)
 Theorem c01_split_table_refuted :
-  split_required KTake [NDistinct] = false /\ may_precede KTake NDistinct = false /\
-  split_required KDistinctOn [NDistinct] = false /\ may_precede KDistinctOn NDistinct = false.
+  pairs_subset known_bad (bad_pairs split_required) = true /\
+  split_required KTake [NDistinct] = false /\ may_precede KTake NDistinct = false.
 Proof. vm_compute. repeat split; reflexivity. Qed.
 Print Assumptions c01_split_table_refuted.
+
+(* full strength for the DISTINCT / DISTINCT ON pairs (false before fix 3561315): for every following-set, neither
+   joins a SELECT that already holds the other *)
+Theorem c01_split_distinct_pairs_closed :
+  forallb (fun f => (negb (mem NDistinct f) || split_required KDistinctOn f) &&
+                    (negb (mem NDistinctOn f) || split_required KDistinct f)) (subsets all_names) = true.
+Proof. vm_compute. reflexivity. Qed.
+Print Assumptions c01_split_distinct_pairs_closed.
 
 (* any decision function that passes the table check cuts clause-ordered segments, at any length *)
 Theorem c01_split_back_clause_ordered :
@@ -50,7 +61,7 @@ Qed.
 Print Assumptions c01_split_back_clause_ordered.
 
 (* the code's function with the known-bad pairs closed satisfies the hypothesis (non-vacuity, and the
-   statement that holds once F19/F31 are repaired) *)
+   statement that holds once F19 is repaired) *)
 Definition split_repaired (k : kind) (f : list nm) : bool :=
   split_required k f || existsb (fun y => existsb (pair_eqb (k, y)) known_bad) f.
 Theorem c01_split_repaired_table_ok : bad_pairs split_repaired = [].
